@@ -6,7 +6,7 @@ prop = sys.argv[2] if len(sys.argv) > 2 else tag[:3]
 src = '/scratch/seed/%s/out/patch.diff' % tag
 if not os.path.exists(src):
     src = '/verif/seeded/%s/patch.diff' % tag
-st = '/scratch/st_seed'   # fixed path: the Kani/cargo caches are keyed by source path
+st = os.environ.get('ST_DIR', '/scratch/st_seed')   # fixed path: the Kani/cargo caches are keyed by source path
 shutil.rmtree(st, ignore_errors=True)
 subprocess.run('git -C /repo worktree add -f --detach %s HEAD -q' % st, shell=True, check=True)
 try:
@@ -14,7 +14,7 @@ try:
     if r.returncode != 0:
         r = subprocess.run('git apply -3 %s' % src, shell=True, cwd=st, stdout=subprocess.PIPE, stderr=subprocess.STDOUT, text=True)
     print('apply:', r.returncode, r.stdout.strip()[:300])
-    env = dict(os.environ, VERIF_REPO=st, VERIF_KANI_TARGET='/verif/.cache/kani-target-seed', VERIF_EVIDENCE_DIR='/scratch/seed_evidence', VERIF_REPLAY_DIR='/scratch/seed_replays')
+    env = dict(os.environ, VERIF_REPO=st, VERIF_KANI_TARGET=os.environ.get('ST_KANI', '/verif/.cache/kani-target-seed'), VERIF_EVIDENCE_DIR='/scratch/seed_evidence', VERIF_REPLAY_DIR='/scratch/seed_replays')
     p = subprocess.run(['/verif/check', prop], env=env, stdout=subprocess.PIPE, stderr=subprocess.STDOUT, text=True)
     print(p.stdout[-3000:])
     print('exit', p.returncode)
